@@ -440,6 +440,27 @@ func execKS(p ksProg, c *hx.Case) (err error) {
 				}
 			}
 			mu.Unlock()
+			// Open known finding, excluded by construction: the checkpoint stores only the
+			// assigned shards and one "last assigned" marker, so a shard that exists but is
+			// still blocked by an unfinished parent, with an id below the marker, is
+			// forgotten by the restore (its children are then handed out before it).
+			mu.Lock()
+			maxAssigned, forgotten := "", false
+			for _, m := range model {
+				if m.everAssigned && m.id > maxAssigned {
+					maxAssigned = m.id
+				}
+			}
+			for _, m := range model {
+				if !m.everAssigned && m.id < maxAssigned {
+					forgotten = true
+				}
+			}
+			mu.Unlock()
+			if forgotten && c.Known("C16-kinesis-restore-forgets-blocked-shards") {
+				c.Label("avoided:C16-kinesis-restore-forgets-blocked-shards")
+				continue
+			}
 			state := sp.Checkpoint()
 			sp.Close()
 			time.Sleep(2 * time.Millisecond)
